@@ -238,5 +238,6 @@ pub fn def() -> PropDef {
         ],
         spaces: vec![Space { name: "history", decode, plan: |t| Plan::Random(t.n(150_000, 3_000_000)) }],
         differential: true,
+        floors: &[("searches", 1.0)],
     }
 }
